@@ -14,7 +14,7 @@ use serde_json::{json, Value};
 
 fn bytes_of(class: &str, all: bool) -> Vec<u8> {
     let v: Vec<u8> = match class {
-        "print" => if all { (0x20u8..0x7f).filter(|b| !b"()\\".contains(b)).collect() } else { vec![b'a', b' ', b'%', b'#', b'~', b'/'] },
+        "print" => if all { (0x20u8..0x7f).filter(|b| !b"()\\".contains(b)).collect() } else { vec![b'a', b' ', b'%', b'#', b'~', b'/', b'0', b'7', b'8', b'n'] },
         "lparen" => vec![b'('], "rparen" => vec![b')'], "bslash" => vec![b'\\'], "cr" => vec![b'\r'], "lf" => vec![b'\n'],
         "nul" => if all { (0u8..0x20).filter(|b| *b != b'\r' && *b != b'\n').chain(std::iter::once(0x7f)).collect() } else { vec![0, 9, 12, 0x1b, 0x7f] },
         "high" => if all { (0x80u8..=0xff).collect() } else { vec![0x80, 0xa9, 0xff] },
